@@ -18,7 +18,8 @@ func init() {
 		Explanation: "Static taint, for every filter key, operator and value (all inputs at once). The path client text → SQL text is cut in three places, each decided separately: " +
 			"R20a every function literal of package ledgerstore with the signature of query.ContextFn (all v1 and v2 filters funnel through Builder.Build → Context.BuildMatcher) is analysed with key, operator and value as taint sources: nothing tainted reaches its first result (the SQL fragment) unless sanitised — equality with a constant on every path to the use, lookup in a package-level map of constants, a successful match against a package-level regexp proved quote-safe by walking its syntax tree (anchored ^…$, no ' \" \\ and no wide/negated class), or a numeric/time type; bound arguments (second result) are not sinks. " +
 			"R20b the combinators of libs/query (set.Build, not.Build, keyValue.Build) add only constant text around nested Build results: the only field they format is set.operator, whose every writer stores a constant or the tail of a parameter that all call sites have compared with constants. " +
-			"R20c in package ledgerstore the format/expression argument of every bun.SelectQuery builder call (Where, Join, ColumnExpr, TableExpr, OrderExpr, …) derives only from constants, Builder.Build results (R20a/b), rendered sub-queries, numeric/time formatting, or string parameters whose every call site passes such a value.",
+			"R20c in package ledgerstore the format/expression argument of every bun.SelectQuery builder call (Where, Join, ColumnExpr, TableExpr, OrderExpr, …) derives only from constants, Builder.Build results (R20a/b), rendered sub-queries, numeric/time formatting, or string parameters whose every call site passes such a value. " +
+			"R20d a `?` argument is data only while bun quotes it: every conversion to the types bun appends verbatim or as an identifier (schema.Safe, Name, Ident, QueryWithArgs — bun.Safe, bun.Ident, bun.SafeQuery, UnsafeIdent) anywhere outside libs takes a string that is clean in the sense of R20c (expected count on today's tree: zero; a mutant keeps the rule exercised).",
 		NotDecided:  "bun's own quoting of bound `?` arguments; the cursor's Column/Order fields (client-controlled, formatted into ORDER BY by bunpaginate — outside the statement, which is about list filters); ledger and bucket names flowing into DDL.",
 		Trusted:     []string{"bun binds ? arguments as parameters / quoted literals", "regexp/syntax parses patterns as package regexp does"},
 		Assumptions: []string{"free variables captured by the filter callbacks that carry text are treated as tainted too (conservative)"},
@@ -361,6 +362,82 @@ func ruleR20c(c *Ctx, tc *taintCfg, build *types.Func) {
 	if len(sites) < 20 {
 		c.undecided(rule, "floor:format-sites", token.NoPos, fmt.Sprintf("only %d SelectQuery format call sites found in package ledgerstore", len(sites)))
 	}
+	// ---- R20d: values that bun renders verbatim. A bound `?` argument is data only as long as its dynamic type is
+	// one bun quotes; schema.Safe / Name / Ident / QueryWithArgs (bun.Safe, bun.Ident, bun.SafeQuery …) are appended
+	// to the statement as SQL text or as an identifier. Every string converted to one of them, anywhere in the
+	// repository outside libs, must be clean in the sense of R20c.
+	const ruleD = "R20d"
+	pkgSchema := pkgBun + "/schema"
+	rawNamed := func(t types.Type) string {
+		if n := namedOf(t); n != nil && n.Obj().Pkg() != nil && n.Obj().Pkg().Path() == pkgSchema {
+			switch n.Obj().Name() {
+			case "Safe", "Name", "Ident", "QueryWithArgs", "QueryWithSep":
+				return n.Obj().Name()
+			}
+		}
+		return ""
+	}
+	nRaw := 0
+	seenD := map[string]int{}
+	for _, fn := range c.RepoFuncs() {
+		if len(fn.Blocks) == 0 || fn.Synthetic != "" || strings.HasPrefix(fnPkgPath(origin(fn)), libsPath) {
+			continue
+		}
+		if strings.HasSuffix(c.Fset.Position(fn.Pos()).Filename, "migrations_v1.go") {
+			continue
+		}
+		for _, b := range fn.Blocks {
+			for _, ins := range b.Instrs {
+				var operand ssa.Value
+				var what string
+				switch x := ins.(type) {
+				case *ssa.ChangeType:
+					if k := rawNamed(x.Type()); k != "" && rawNamed(x.X.Type()) == "" {
+						operand, what = x.X, "schema."+k
+					}
+				case *ssa.Convert:
+					if k := rawNamed(x.Type()); k != "" && rawNamed(x.X.Type()) == "" {
+						operand, what = x.X, "schema."+k
+					}
+				case *ssa.Call:
+					if f := staticCallee(x); f != nil && fnPkgPath(f) == pkgSchema && len(x.Call.Args) > 0 {
+						switch f.Name() {
+						case "SafeQuery", "UnsafeIdent", "SafeQueryWithSep":
+							operand, what = x.Call.Args[0], "schema."+f.Name()
+						}
+					}
+				case *ssa.Store:
+					if fa, ok := x.Addr.(*ssa.FieldAddr); ok {
+						if pt, ok := fa.X.Type().Underlying().(*types.Pointer); ok && rawNamed(pt.Elem()) == "QueryWithArgs" {
+							if st, ok := pt.Elem().Underlying().(*types.Struct); ok && st.Field(fa.Field).Name() == "Query" {
+								operand, what = x.Val, "schema.QueryWithArgs.Query"
+							}
+						}
+					}
+				}
+				if operand == nil {
+					continue
+				}
+				nRaw++
+				c.NSites++
+				key := fnName(fn) + ":" + what
+				seenD[key]++
+				if n := seenD[key]; n > 1 {
+					key = fmt.Sprintf("%s#%d", key, n)
+				}
+				if valueIsClean(fn, ins, operand, 0) {
+					c.ok(ruleD, key, ins.Pos(), "the text rendered verbatim derives from constants only")
+				} else {
+					var chain []string
+					if r := results[fn]; r != nil {
+						chain = r.chain(operand)
+					}
+					c.add(ruleD, key, ins.Pos(), Violated, "a string that may hold client text is wrapped in "+what+", which bun appends to the statement without quoting it as a literal: passed as a `?` argument it is SQL structure, not data", chain...)
+				}
+			}
+		}
+	}
+	c.Info["raw_sql_wrappers"] = nRaw
 }
 
 func freeVarIsClean(c *Ctx, fv *ssa.FreeVar, valueIsClean func(fn *ssa.Function, user ssa.Instruction, v ssa.Value, depth int) bool) bool {
